@@ -194,4 +194,48 @@ theorem view_not_enough :
     revert this
     simp [dumpTree, entryDepth, entryDepth.depthL, rpc0, rpc1, sortBy, implicitIO]
 
+/-! ### `SameIO` for trees without rpc / action nodes -/
+
+def noRpcHere (e : Entry) : Bool := !e.d.isRpc
+
+/-- No rpc / action node anywhere in the tree. -/
+def NoRpc (e : Entry) : Prop := everyNode noRpcHere e = true
+
+instance (e : Entry) : Decidable (NoRpc e) := by unfold NoRpc; infer_instance
+
+theorem noRpc_mk {d : EData} {c i o : List Entry} (h : NoRpc (.mk d c i o)) : d.isRpc = false ∧ ∀ x ∈ c, NoRpc x := by
+  unfold NoRpc at h
+  rw [everyNode_mk] at h
+  refine ⟨?_, h.2.1⟩
+  have := h.1
+  simpa [noRpcHere, Entry.d] using this
+
+theorem walk_noRpc : ∀ (P : NPath) (t x : Entry), NoRpc t → IOShape t → walk t P = some x → NoRpc x ∧ IOShape x
+  | [], t, x, h1, h2, hw => by
+    have : t = x := Option.some.inj hw
+    subst this
+    exact ⟨h1, h2⟩
+  | k :: P, t, x, h1, h2, hw => by
+    cases t with | mk d c i o =>
+    have hr := (noRpc_mk h1).1
+    rw [walk_cons, kid_nonrpc (by exact hr)] at hw
+    cases hc : (Entry.mk d c i o).child? k with
+    | none => rw [hc] at hw; cases hw
+    | some y =>
+      rw [hc] at hw
+      have hm : y ∈ c := IncludeAugDump.child?_mem hc
+      exact walk_noRpc P y x ((noRpc_mk h1).2 y hm) ((ioShape_mk h2).2.2.1 y hm) hw
+
+/-- Trees without rpc / action nodes (of the shape conversion produces) have no input / output entry at all. -/
+theorem sameIO_of_noRpc {t t' : Entry} (h1 : NoRpc t) (h2 : IOShape t) (h1' : NoRpc t') (h2' : IOShape t') : SameIO t t' := by
+  intro P x x' hx hx'
+  obtain ⟨a, b⟩ := walk_noRpc P t x h1 h2 hx
+  obtain ⟨a', b'⟩ := walk_noRpc P t' x' h1' h2' hx'
+  cases x with | mk d c i o =>
+  cases x' with | mk d' c' i' o' =>
+  obtain ⟨e1, e2⟩ := (ioShape_mk b).2.1 (noRpc_mk a).1
+  obtain ⟨e1', e2'⟩ := (ioShape_mk b').2.1 (noRpc_mk a').1
+  subst e1 e2 e1' e2'
+  exact ⟨rfl, rfl⟩
+
 end Goyang.Lemmas.IncludeAugView
